@@ -1,6 +1,10 @@
 import RotondaModel.Model.RibQuery
+import RotondaModel.Model.RibBridge
 /-! Line driver for the RIB HTTP query model (C11). One case per input line (format: see
-`harness/src/bin/c11.rs`), one output line per case. Parsing/printing glue, unverified. -/
+`harness/src/bin/c11.rs`), one output line per case. Parsing/printing glue, unverified.
+Lines starting with `H` (the RibBridge stream) carry a C01-style history instead of a population:
+they are answered by the composed function `Bridge.httpOfHistory` (shared RIB model `run`, abstraction
+`ribToQ`, then this model's `handle`). -/
 open Rotonda.RibQuery
 
 def parsePrefix (s : String) : Option Prefix :=
@@ -76,6 +80,97 @@ def showResp : Resp → String
     let out := s!"200 D{showRecs d} L{sec l} M{sec m}"
     if out.contains '!' then (out.replace "!" "") ++ " dup" else out
 
+/-! ### The `H` stream: events of `Model/Rib.lean` (tokens of `harness/src/rib.rs::Ev`) -/
+
+namespace H
+open Rotonda
+
+def parsePfx (s : String) : Option Rib.Prefix :=
+  match s.splitOn "." with
+  | [f, l, b] => do
+    let fam ← (if f == "4" then some Rib.Fam.v4 else if f == "6" then some Rib.Fam.v6 else none)
+    some ⟨fam, ← l.toNat?, ← b.toNat?⟩
+  | _ => none
+
+def parseNlri (s : String) : Option Rib.Nlri :=
+  let rest := (s.drop 1).toString
+  match s.take 1 |>.toString with
+  | "u" => do some ⟨← parsePfx rest, .unicast⟩
+  | "m" => do some ⟨← parsePfx rest, .multicast⟩
+  | "x" => do some ⟨← parsePfx rest, .unsupported⟩
+  | _ => none
+
+def parseNlris (s : String) : Option (List Rib.Nlri) :=
+  if s == "-" then some [] else (s.splitOn ",").mapM parseNlri
+
+def parseAf : String → Rib.AfiSafi
+  | "v4u" => .v4u | "v6u" => .v6u | "v4m" => .v4m | "v6m" => .v6m | _ => .other
+
+/-- An event of a history, or (for `Withdraw(id, Some(afi/safi))`, which `Ev` does not have) a bare `Update`. -/
+def parseEv (s : String) : Option (Rib.Ev ⊕ Rib.Update) :=
+  match s.splitOn ":" with
+  | "u" :: m :: a :: ann :: wd :: _ => do
+    some (.inl (.upd (← m.toNat?) (.ok (← a.toNat?) (← parseNlris ann) (← parseNlris wd))))
+  | "x" :: m :: _ => do some (.inl (.upd (← m.toNat?) .malformed))
+  | ["d", m] => do some (.inl (.down (← m.toNat?)))
+  | ["D", ms] => if ms == "-" then some (.inl (.downBulk [])) else do some (.inl (.downBulk (← (ms.splitOn ",").mapM (·.toNat?))))
+  | ["da", m, af] => do some (.inr (.withdraw (← m.toNat?) (some (parseAf af))))
+  | _ => none
+
+/-- `<aid>~<path>~<communities>`: what attribute id `aid` stands for. -/
+def parseAttr (s : String) : Option (Nat × Attrs) :=
+  match s.splitOn "~" with
+  | [a, path, comms] => do
+    let id ← a.toNat?
+    some (id, { id := id, asPath := ← parseHops path, communities := ← parseComms comms })
+  | _ => none
+
+def interp (tab : List (Nat × Attrs)) : Bridge.AttrInterp := fun a =>
+  match tab.lookup a with
+  | some x => x
+  | none => ⟨a, some [], []⟩
+
+def run (vr : Rib.Variant) (v : Variant) (lim : Limits) (reg : Register) (tab : List (Nat × Attrs))
+    (evs : List (Rib.Ev ⊕ Rib.Update)) (url : Url) (obsU obsM : List Prefix) : Resp :=
+  let hist := evs.filterMap fun e => match e with | .inl ev => some ev | .inr _ => none
+  if hist.length == evs.length then
+    -- the composed function of the theorems
+    Bridge.httpOfHistory vr v (interp tab) hist lim reg url obsU obsM
+  else
+    Bridge.httpOfUpdates vr v (interp tab)
+      (evs.flatMap fun e => match e with | .inl ev => ev.updates vr | .inr u => [u]) lim reg url obsU obsM
+
+end H
+
+def parseLimits (l : String) : Option Limits :=
+  match (l.drop 1).toString.splitOn "," with
+  | [a, b] => do some (Limits.mk (← a.toNat?) (← b.toNat?))
+  | _ => none
+
+def parseReg (i : String) : Option Register :=
+  parseList (fun e => match e.splitOn ":" with
+    | [id, a] => do some ((← id.toNat?), if a == "-" then none else a.toNat?)
+    | _ => none) "," (i.drop 1).toString
+
+def runHCase (vr : Rotonda.Rib.Variant) (v : Variant) (line : String) : String :=
+  match line.splitOn "|" with
+  | l :: i :: a :: e :: _p :: x :: s :: qs =>
+    let q := "|".intercalate qs
+    let res : Option String := do
+      let lim ← parseLimits l
+      let reg ← parseReg i
+      let tab ← parseList H.parseAttr ";" (a.drop 1).toString
+      let evs ← (((e.drop 1).toString.splitOn " ").filter (· ≠ "")).mapM H.parseEv
+      let xs := (x.drop 1).toString
+      let pfx ← if xs == "bad" then some none else (parsePrefix xs).map some
+      let (obsU, obsM) ← match (s.drop 1).toString.splitOn "~" with
+        | [u, m] => do some ((← parseList parsePrefix "," u), (← parseList parsePrefix "," m))
+        | _ => none
+      let params := parseQuery (q.drop 1).toString.toList
+      some (showResp (H.run vr v lim reg tab evs ⟨pfx, params⟩ obsU obsM))
+    res.getD "bad-case"
+  | _ => "bad-case"
+
 def runCase (v : Variant) (line : String) : String :=
   match line.splitOn "|" with
   | l :: i :: r :: w :: _p :: x :: s :: qs =>
@@ -88,10 +183,16 @@ def runCase (v : Variant) (line : String) : String :=
         | [id, a] => do some ((← id.toNat?), if a == "-" then none else a.toNat?)
         | _ => none) "," (i.drop 1).toString
       let recs ← parseList parseRec ";" (r.drop 1).toString
-      let wd ← parseList (·.toNat?) "," (w.drop 1).toString
+      -- `W<mui>,…[;<u|m><prefix>,…]`: store-wide withdrawn ids, then the record-less prefix slots
+      let (wds, slots) := match (w.drop 1).toString.splitOn ";" with
+        | [a, b] => (a, b)
+        | a :: _ => (a, "")
+        | [] => ("", "")
+      let wd ← parseList (·.toNat?) "," wds
+      let empties ← parseList (fun t => do some ((t.take 1).toString == "m", ← parsePrefix (t.drop 1).toString)) "," slots
       let rib : Rib := {
-        unicast := ⟨(recs.filter (!·.1)).map (·.2), wd⟩,
-        multicast := ⟨(recs.filter (·.1)).map (·.2), wd⟩ }
+        unicast := ⟨(recs.filter (!·.1)).map (·.2), wd, (empties.filter (!·.1)).map (·.2)⟩,
+        multicast := ⟨(recs.filter (·.1)).map (·.2), wd, (empties.filter (·.1)).map (·.2)⟩ }
       let xs := (x.drop 1).toString
       let pfx ← if xs == "bad" then some none else (parsePrefix xs).map some
       let (obsU, obsM) ← match (s.drop 1).toString.splitOn "~" with
@@ -102,16 +203,22 @@ def runCase (v : Variant) (line : String) : String :=
     res.getD "bad-case"
   | _ => "bad-case"
 
-partial def loop (v : Variant) (h : IO.FS.Stream) (out : IO.FS.Stream) : IO Unit := do
+partial def loop (vr : Rotonda.Rib.Variant) (v : Variant) (h : IO.FS.Stream) (out : IO.FS.Stream) : IO Unit := do
   let line ← h.getLine
   if line.isEmpty then return ()
-  out.putStrLn (runCase v (line.trimAscii.toString))
-  loop v h out
+  let line := line.trimAscii.toString
+  out.putStrLn (if line.startsWith "H" then runHCase vr v line else runCase v line)
+  loop vr v h out
 
 def main (args : List String) : IO Unit := do
   let v : Variant := {
     community := args.contains "community=repaired"
     lesszero := args.contains "lesszero=repaired"
     mcast := args.contains "mcast=repaired"
-    more := args.contains "more=contract" }
-  loop v (← IO.getStdin) (← IO.getStdout)
+    more := args.contains "more=contract"
+    lessstop := args.contains "lessstop=repaired" }
+  -- the shared RIB model's defect-site switches (as `rmodel-rib`): C01 overlap, C03 flap
+  let vr : Rotonda.Rib.Variant := {
+    overlapFix := args.contains "overlap=repaired"
+    perRecordWithdraw := args.contains "flap=repaired" }
+  loop vr v (← IO.getStdin) (← IO.getStdout)
